@@ -94,17 +94,19 @@ def header_rows(img, count, pt, padding, n):
     # length field = n/4 - 1, losslessly
     b2 = img.I.read_byte(s, BUF, lin(2))
     b3 = img.I.read_byte(s, BUF, lin(3))
-    ok = isinstance(b2, IntV) and isinstance(b3, IntV) and solver.entails(s.pc, flit(eq((b2.l.scale(256) + b3.l + 1).scale(4), n)))
+    from .c06 import aligned_sum_facts
+    # a sum of 4-aligned element sizes is 4-aligned (same induction as in C06): a derived fact, not an assumption
+    pc_al = list(s.pc) + aligned_sum_facts(img.I, lin(n), 4)
+    ok = isinstance(b2, IntV) and isinstance(b3, IntV) and solver.entails(pc_al, flit(eq((b2.l.scale(256) + b3.l + 1).scale(4), n)))
     img.rows += 1
     # first for the sizes the field can express (a defect here is never covered by the recorded D11 finding) ...
-    from .c06 import aligned_sum_facts
-    pc_rep = list(s.pc) + [le(n, MAX_BYTES)] + aligned_sum_facts(img.I, lin(n), 4)
+    pc_rep = pc_al + [le(n, MAX_BYTES)]
     ok_rep = isinstance(b2, IntV) and isinstance(b3, IntV) and solver.entails(pc_rep, flit(eq((b2.l.scale(256) + b3.l + 1).scale(4), n)))
     img.res.compare(ok_rep, "length-field", img.B.wr, f"{img.B.name}: length field == n/4 - 1 (BE16) whenever n <= {MAX_BYTES}",
                     detail=f"n = {n}; written {b2!r},{b3!r}"[:400], pc=pc_rep, entry=img.entry)
     # ... then without that assumption (this is where a builder that accepts more than 65536 words shows)
     img.res.compare(ok, "length-field-lossless", img.B.wr, f"{img.B.name}: length field == n/4 - 1 (BE16, no truncation)",
-                    detail=f"n = {n}; written {b2!r},{b3!r}"[:400], pc=s.pc, entry=img.entry)
+                    detail=f"n = {n}; written {b2!r},{b3!r}"[:400], pc=pc_al, entry=img.entry)
     if P is not None and base == 160:
         img.zero_row(n - P, n - 1, "padding octets are zero")
         img.byte_is(s, n - 1, P, "last octet is the padding count")
